@@ -169,7 +169,10 @@ def find_fn(src, name, nth=0, within=None):
     lo, hi = 0, len(src)
     if within is not None:
         w = norm_ws(within)
-        blocks = [b for b in impl_blocks(src, code) if w in b[0]]
+        if w.endswith('$'):   # exact header (`impl Help$` is not `impl HelpLink`)
+            blocks = [b for b in impl_blocks(src, code) if b[0] == w[:-1].strip()]
+        else:
+            blocks = [b for b in impl_blocks(src, code) if w in b[0]]
         if not blocks:
             raise Infra('impl block %r not found' % within)
         # choose the block that contains the function
